@@ -211,7 +211,7 @@ let run_script (si : int) (ops : opblock list) (do_wf : bool) (do_tree : bool) (
            | off :: hx :: r -> im := Image.img_write !im (n_of_string off) (bytes_of_hex hx); go r
            | _ -> () in
          go (split_ws b.rpayload); formatted := true
-       | "format" :: _ when okp -> formatted := true
+       | "format" :: _ when okp && Stdlib.List.exists (fun ev -> match ev with "w" :: _ -> true | _ -> false) b.events -> formatted := true
        | "mount" :: _ :: _ :: o :: _ -> oem := (if o = "table" then oem_table else oem_lossy)
        | _ -> ());
       if b.rkind = "bad" then ()
